@@ -121,7 +121,8 @@ structure Pair where
   syncFn : String
   filters : List String
   shape : Shape
-  asyncGen : Bool          -- the async variant returns an async iterator
+  asyncGen : Bool          -- the async variant returns an async iterator (lazy)
+  syncIsGen : Bool         -- the sync function is a generator (lazy)
   iterParam : String
   notes : List String
   deriving Repr, DecidableEq
